@@ -45,6 +45,12 @@ def Res.show {α} (f : α → String) : Res α → String
   | .err c => "err:" ++ c
   | .panic c => "panic:" ++ c
 
+@[inline] def Res.bind {α β} (r : Res α) (f : α → Res β) : Res β :=
+  match r with
+  | .ok a => f a
+  | .err e => .err e
+  | .panic e => .panic e
+
 def boolStr (b : Bool) : String := if b then "1" else "0"
 
 end Enc
